@@ -85,6 +85,13 @@ def build(case):
     names = sorted(con.assertions.keys())
     asn_name = names[case["asn"] % len(names)]
     asn = con.assertions[asn_name]
+    if case.get("ctor_means") is not None:
+        # the Assertion object made by its own constructor with preliminary pool means (`tally_pool_means=`), as a caller
+        # who estimated them before the CVRs were final would; the means in force are the ones the assorter holds after
+        # set_tally_pool_means -- the keyword's values must not come back
+        asn = Assertion(contest=con, assorter=asn.assorter, winner=asn.winner, loser=asn.loser, margin=asn.margin,
+                        test=asn.test, estim=asn.estim, bet=asn.bet,
+                        tally_pool_means={k: float(Fraction(v)) for k, v in case["ctor_means"]})
     con.assertions = {asn_name: asn}        # the one assertion under test (set_p_values loops over con.assertions)
     # how boolean flags handed to the CVR constructor are materialised: Python bool, numpy bool (a mask of unfound
     # cards), or int 0/1 (a flag column read from a file): all are legitimate truthy / falsy flags
@@ -757,6 +764,7 @@ def gen_one(rng):
     # type of the boolean flags handed to the CVR constructor (phantom / pool): bool, numpy bool, int
     case["flag_type"] = rng.choice(["bool", "bool", "np", "int"])
     case["direct"] = scf != "IRV" and rng.chance(0.4)     # assertion built by the direct constructor call
+    _ctor_means = rng.chance(0.2)                          # Assertion(...) with preliminary pool means (filled in below)
     case["use_style"] = rng.chance(0.6)
     r = rng.random()
     case["audit_type"] = ("CARD_COMPARISON" if r < 0.4 else "ONEAUDIT" if r < 0.82 else "POLLING" if r < 0.97 else "BATCH_COMPARISON")
@@ -764,6 +772,9 @@ def gen_one(rng):
     k = rng.choice([0, 0, 1, 2, 3])
     labels = [f"p{i+1}" for i in range(k)]
     pooled_labels = [p for p in labels if rng.chance(0.7)]
+    if _ctor_means:
+        case["ctor_means"] = [[p, str(rng.choice([Fraction(0), Fraction(1, 2), Fraction(1, 4), Fraction(1), Fraction(3, 4)]))]
+                              for p in (labels or ["p1"])]
     p_contest = rng.choice([0.5, 0.8, 0.8, 1.0])
     cvrs, mvrs = [], []
 
